@@ -11,6 +11,8 @@
 //!             is compiled with #![deny(unused_unsafe)] and uncapped lints (as for the native literal: accepted)
 //!   via    9: every element calls an unsafe fn WITHOUT an unsafe block (as for the native literal: rejected,
 //!             whenever there is an element expression at all)
+//!   via   11: list forms (0, 1, 6) whose FIRST element carries `#[cfg(any())]`: the element is compiled out, as in the
+//!             native literal `[#[cfg(any())] e0, e1, ..]`, so the array has one element less (and e0 is not evaluated)
 //!   via   10: box_arr![x; N] inside a fn generic over the type-level length N (form 7 only: the expansion may not
 //!             put N into an item, which cannot name the parameters of the enclosing fn)
 //!   via    7: elements borrowing from temporaries of their own expression (u32 behind a reference)
@@ -19,6 +21,7 @@
 //!          observable, not a build failure); via 0 = the same invocations written in Rust
 //!          source by macros, see c20src.rs
 //! OBS  = 0 kind N::USIZE len values... loglen log...  |  1 (does not compile)  |  2 (panicked)
+//!        |  4 (the program of this case was killed: abort / signal -- only reported for programs of their own)
 //!   element i appends i to the log and yields 3 + 7*i; a clone of value v logs -1-v.
 use harness::*;
 use std::io::Write;
@@ -119,6 +122,16 @@ fn case_body(c: &[i128]) -> String {
             6 => format!("let o = observe(1, &*box_arr![{rlist}{commas}]); o"),
             7 => format!("let o = observe(1, &*box_arr![{}; {nty}]); o", r(0)),
             _ => format!("let o = observe(1, &*box_arr![{}; {count}]); o", r(0)),
+        };
+    }
+    // via 11: the first element of a list form is compiled out by a cfg attribute
+    if via == 11 {
+        let strip = |l: String| format!("#[cfg(any())] {}", l);
+        let nty1 = ty_of(count.saturating_sub(1));
+        return match form {
+            0 => format!("let a: GenericArray<{t}, _> = arr![{}{commas}]; observe(0, &a)", strip(list())),
+            1 => format!("const A: GenericArray<{t}, {nty1}> = arr![{}{commas}]; observe(0, &A)", strip(clist())),
+            _ => format!("let a: Box<GenericArray<{t}, _>> = box_arr![{}{commas}]; observe(1, &a)", strip(list())),
         };
     }
     // via 10: the type-level length is a generic parameter of the enclosing fn
@@ -272,6 +285,24 @@ fn relay(exe: &Path) -> bool {
     out.status.success()
 }
 
+/// run a compiled single-case program; when it is killed (abort, signal) the case is reported with OBS 4
+fn relay_solo(exe: &Path, case: &[i128]) {
+    let out = Command::new(exe).output().expect("generated program runs");
+    let o = std::io::stdout();
+    let mut o = o.lock();
+    if out.status.success() {
+        let _ = o.write_all(&out.stdout);
+    } else {
+        let ints: Vec<String> = case.iter().map(|x| x.to_string()).collect();
+        let _ = writeln!(o, "CASE {}", ints.join(" "));
+        let _ = writeln!(o, "OBS 4");
+        let err = String::from_utf8_lossy(&out.stderr);
+        let first = err.lines().find(|l| l.contains("panicked") || l.contains("unsafe precondition") || l.contains("SIG")).unwrap_or("").to_string();
+        let _ = writeln!(o, "NOTE case {:?}: its program was killed ({:?}) {}", case, out.status, first);
+    }
+    let _ = o.flush();
+}
+
 /// a generated program died (abort, signal) while running its last CASE
 fn die(t: &Tool) -> ! {
     flush_dist();
@@ -294,8 +325,8 @@ fn probably_rejected(c: &[i128]) -> bool {
     let (form, count, et) = (c[0], c[1], c[2]);
     let in_table = count <= 1024 || [2047, 2048, 3600, 4095, 4096].contains(&count);
     let copy = et == 0 || et == 3;
-    if c.len() > 4 && (c[4] == 8 || c[4] == 9) {
-        return true; // a program of its own: its lint levels differ / it is expected to be rejected
+    if c.len() > 4 && (c[4] == 8 || c[4] == 9 || c[4] == 11) {
+        return true; // a program of its own: its lint levels differ / it is expected to be rejected / it may be killed
     }
     match form {
         9 | 10 | 11 => true,
@@ -410,6 +441,12 @@ fn generated_cases(thorough: bool) -> Vec<Vec<i128>> {
             }
         }
     }
+    // a list element compiled out by `#[cfg(any())]`
+    for n in [1i128, 2, 3, 8] {
+        for form in [0i128, 1, 6] {
+            v.push(vec![form, n, 0, 0, 11]);
+        }
+    }
     // box_arr! with a generic type-level length
     for n in [0i128, 1, 3, 16, 100] {
         for et in 0..4i128 {
@@ -456,11 +493,7 @@ fn run_generated(t: &Tool, cases: Vec<Vec<i128>>) {
     let each = parallel(&solo, |j, c| compile(t, &format!("solo{}", j), &program(std::slice::from_ref(c))));
     for (c, r) in solo.iter().zip(each) {
         match r {
-            Ok(exe) => {
-                if !relay(&exe) {
-                    die(t);
-                }
-            }
+            Ok(exe) => relay_solo(&exe, c),
             Err(why) => does_not_compile(c, &why, &mut notes),
         }
     }
